@@ -156,8 +156,24 @@ def judge(case):
     host = hostile(case)
     exp_pm = exp_params(pm)
     P = Parameters()
+    churn = case.get("churn")
+    if churn:   # the map had another parameter, was serialised, and the parameter was removed again (history of one object)
+        P["X-VERIF-TMP"] = "secret"
+        P.to_ical()
+        P.to_ical(sorted=False)
     for n, x in pm:
         P[n] = x
+    if churn:
+        P.to_ical()
+        if churn == "del":
+            del P["X-VERIF-TMP"]
+        elif churn == "pop":
+            P.pop("X-VERIF-TMP")
+        else:
+            items = [(k, P[k]) for k in P.keys() if k != "X-VERIF-TMP"]
+            P.clear()
+            for k, v_ in items:
+                P[k] = v_
     # ---------------------------------------------------------------- line level
     if case["path"] == "line":
         try:
@@ -199,7 +215,13 @@ def judge(case):
     cal.add_component(ev)
     cal.add_component(todo)
     try:
-        ev.add(name, mk_value(kind, v), parameters=dict((n, x) for n, x in pm) or None)
+        val_obj = mk_value(kind, v)
+        params_arg = dict((n, x) for n, x in pm)
+        if churn:   # the value object carried a parameter, was rendered once, and add() is told to remove it (None)
+            val_obj.params["X-VERIF-TMP"] = "secret"
+            Contentline.from_parts(name, val_obj.params, val_obj)
+            params_arg["X-VERIF-TMP"] = None
+        ev.add(name, val_obj, parameters=params_arg or None)
         ev.add("x-zz-last", "sentinel-2")
         raw = cal.to_ical()
     except Exception as e:
@@ -365,7 +387,7 @@ def cases(draw):
     else:
         v = [draw(st.integers(1990, 2030)), draw(st.integers(1, 12)), draw(st.integers(1, 28)), draw(st.integers(0, 23)),
              draw(st.integers(0, 59)), draw(st.integers(0, 59))]
-    return {"path": path, "name": name, "params": pm, "kind": kind, "value": v}
+    return {"path": path, "name": name, "params": pm, "kind": kind, "value": v, "churn": draw(st.sampled_from([None, None, None, "del", "pop", "clear"]))}
 
 
 INJ = ["\r", "\n", ":", ";", ",", '"', "\\", "BEGIN:VTODO", "a"]
